@@ -151,6 +151,16 @@ func errorNoise(r *prng.R, n int) {
 					{4, 4, 0, 16, 0, 0, 0, 5, 0, 0, 0x23, 0x20, 0, 0, 0, 99}, {4, 0, 0, 16, 0, 0, 0, 6, 0, 1, 0, 3, 0, 0, 0, 0},
 				}
 				of.Parse(append([]byte(nil), frames[rr.Intn(len(frames))]...))
+				// a well-framed bundle-add (and an experimenter error) around a message the parser rejects
+				inner := [][]byte{
+					{4, 99, 0, 8, 0, 0, 0, 9}, {4, 17, 0, 16, 0, 0, 0, 9, 1, 0, 0, 0, 0, 0, 0, 3},
+					{4, 14, 0, 16, 0, 0, 0, 9, 1, 2, 3, 4, 5, 6, 7, 8}, {4, 10, 0, 12, 0, 0, 0, 9, 0, 0, 0, 1},
+					{1, 0, 0, 8, 0, 0, 0, 9}, {4, 4, 0, 16, 0, 0, 0, 9, 0, 0, 0x23, 0x20, 0, 0, 0, 77},
+				}[rr.Intn(6)]
+				ba := append([]byte{4, 4, 0, 0, 0, 0, 0, 8, 0x4f, 0x4e, 0x46, 0, 0, 0, 8, 0xfd, 0, 0, 0, byte(seed), 0, 0, 0, 1}, inner...)
+				ba[2], ba[3] = byte(len(ba)>>8), byte(len(ba))
+				of.Parse(ba)
+				new(of.VendorHeader).UnmarshalBinary(ba)
 			case 4:
 				// packet decoders on truncated or inconsistent bytes
 				junk := rr.Bytes(rr.Pick(0, 1, 7, 13, 14, 17, 19, 20, 27, 39))
